@@ -31,7 +31,7 @@ pub fn last_panic() -> String {
     LAST_PANIC.with(|p| p.borrow().clone())
 }
 
-fn sanitize(s: &str) -> String {
+pub fn sanitize(s: &str) -> String {
     s.chars()
         .map(|c| if c.is_ascii_alphanumeric() || c == '-' || c == '_' || c == ':' || c == '.' || c == '/' { c } else { '_' })
         .take(120)
